@@ -134,7 +134,7 @@ def gen_data(rng, thorough):
     return {'t': 'data', 'nF': nF, 'nS': nS, 'card': card, 'structure': structure, 'fam': fam, 'ensure_rep': rng.random() < 0.6,
             'random_values': rv, 'low': low, 'high': high, 'k': rng.choice([10, 10, 1, 2, 0.5, 50]),
             'seed': rng.choice([42, 0, rng.randrange(2 ** 32)]), 'pre': [rng.randrange(2 ** 31), rng.randrange(2 ** 31)],
-            'ixarr': rng.random() < 0.3}
+            'ixarr': rng.random() < 0.3, 'iterable': rng.choice(['list', 'list', 'list', 'iter', 'generator', 'zip', 'tuple'])}
 
 
 def gen_feat(rng, thorough):
@@ -190,9 +190,16 @@ def run_data(c):
         instrument(cc, rec, calls)
         kw = dict(n_features=c['nF'], n_samples=c['nS'], cardinality=c['card'], structure=struct_py(c['structure'], c.get('ixarr', False)),
                   ensure_rep=c['ensure_rep'], random_values=c['random_values'], low=c['low'], high=c['high'], k=c['k'], seed=c['seed'])
+        kw_call = kw
+        if rep == 0 and kw['structure'] and c.get('iterable') in ('iter', 'generator', 'zip', 'tuple'):
+            # the same description handed over as a one-shot iterable / a tuple (first run only; the second run passes the list)
+            st = kw['structure']
+            it = {'iter': lambda: iter(st), 'generator': lambda: (e for e in st), 'zip': lambda: zip([e[0] for e in st], [e[1] for e in st]),
+                  'tuple': lambda: tuple(st)}[c['iterable']]()
+            kw_call = dict(kw, structure=it)
         with rec:
             try:
-                X = cc.generate_data(**kw)
+                X = cc.generate_data(**kw_call)
                 r = {'outcome': 'ok', 'shape': list(X.shape), 'dtype': str(X.dtype), 'cols': [[int(v) for v in col] for col in X.T.tolist()]}
             except Exception as e:                                    # noqa: BLE001
                 r = {'outcome': 'raises:' + type(e).__name__, 'msg': str(e)[:100]}
